@@ -104,6 +104,7 @@ def make_meaning(rnd, pool, clients, sys_targets=False):
             kvs.append({"k": rnd.choice([["$SYS", "s"], ["$SYS", "clients", rnd.choice(clients), "graveGoods"], [""], ["a", "?"]]),
                         "v": "evil"})
         meaning["lw%d" % i] = {"gg": [], "lw": kvs}
+    meaning["j:[]"] = {"gg": [], "lw": []}      # the empty list parses as either
     return meaning
 
 
